@@ -469,6 +469,44 @@ pub fn run(report: &Report, thorough: bool) -> Evidence {
                             wrapped.fetch_add(1, Ordering::Relaxed);
                             judge.judge(&ctx.opts, &evs, r, Some(&raw_of(&evs, &[])));
                         }
+                        // the SAME text composed again in the same context after the word was deleted (ctrl-backspace) and the
+                        // options it depends on were changed while idle (English and smart quotes flipped through update-engine):
+                        // the list must be the one of the new options - nothing remembered for a composed text may survive
+                        if text == **word || (text.len() == word.len() + 2 && text.starts_with('"')) {
+                            let mut o2 = ctx.opts.clone();
+                            o2.english = !o2.english;
+                            o2.smart = !o2.smart;
+                            o2.via_update = false;
+                            o2.churn = false;
+                            let back = ctx.opts.clone();
+                            let mut h: Vec<Ev> = evs.clone();
+                            h.push(Ev::CtrlBs);
+                            h.push(Ev::Update(Box::new(o2.clone())));
+                            let mut ok2 = ctx.apply(&Ev::CtrlBs).is_ok() && ctx.apply(&Ev::Update(Box::new(o2.clone()))).is_ok();
+                            let mut last2 = None;
+                            if ok2 {
+                                for e in evs.iter() {
+                                    h.push(e.clone());
+                                    match ctx.apply(e) {
+                                        Ok(Out::Sugg(r)) => last2 = Some(r),
+                                        Ok(_) => {}
+                                        Err(f) => {
+                                            report.add(fail_violation("C15", &f, &o2, &h));
+                                            ok2 = false;
+                                            break;
+                                        }
+                                    }
+                                }
+                            }
+                            if ok2 {
+                                if let Some(r2) = &last2 {
+                                    wrapped.fetch_add(1, Ordering::Relaxed);
+                                    judge.judge(&o2, &h, r2, Some(&raw_of(&evs, &[])));
+                                }
+                            }
+                            let _ = ctx.apply(&Ev::CtrlBs);
+                            let _ = ctx.apply(&Ev::Update(Box::new(back)));
+                        }
                         // a key the layout gives nothing for (number-pad key, number-pad option off) pressed in front of,
                         // inside and after the text changes nothing: same list, raw key text without it
                         if text.len() == word.len() + 2 || text == **word {
